@@ -11,35 +11,32 @@
 /* ===================================================================== spec
  * Independent decoder of an entry header (three LEB128 varint32), written
  * from the table-format description.  Pure: no writes outside its locals. */
-typedef struct spec_hdr_s {
-  size_t len;            /* bytes of header, 0 = not decodable within n bytes */
-  uint32_t shared, non_shared, value_length;
-} spec_hdr_t;
-
-static spec_hdr_t spec_entry_header(const uint8_t *p, size_t n) {
-  spec_hdr_t h;
-  size_t k1, k2, k3;
-  h.len = 0; h.shared = 0; h.non_shared = 0; h.value_length = 0;
-  k1 = BLK_VLEN5(p, n);
-  if (k1 == 0) return h;
-  k2 = BLK_VLEN5(p + k1, n - k1);
-  if (k2 == 0) return h;
-  k3 = BLK_VLEN5(p + k1 + k2, n - k1 - k2);
-  if (k3 == 0) return h;
-  h.shared = V32_VAL(p, k1);
-  h.non_shared = V32_VAL(p + k1, k2);
-  h.value_length = V32_VAL(p + k1 + k2, k3);
-  h.len = k1 + k2 + k3;
-  return h;
-}
+/* first min(n,15) bytes at p; bytes that do not exist read as 0x80, a
+ * continuation byte that terminates nothing */
+#define SPEC_B(p, n, j) ((j) < (n) ? (p)[j] : (uint8_t)0x80)
+#define SPEC_VLEN(h, i) (!((h)[(i)] & 128) ? 1u : !((h)[(i) + 1] & 128) ? 2u : !((h)[(i) + 2] & 128) ? 3u : !((h)[(i) + 3] & 128) ? 4u : !((h)[(i) + 4] & 128) ? 5u : 0u)
+#define SPEC_VVAL(h, i, k) ((uint32_t)(((uint64_t)((h)[(i)] & 127)) | ((k) > 1 ? ((uint64_t)((h)[(i) + 1] & 127) << 7) : 0) | \
+  ((k) > 2 ? ((uint64_t)((h)[(i) + 2] & 127) << 14) : 0) | ((k) > 3 ? ((uint64_t)((h)[(i) + 3] & 127) << 21) : 0) | ((k) > 4 ? ((uint64_t)((h)[(i) + 4] & 127) << 28) : 0)))
 
 /* q = result, (s, ns, vl) = outputs, p/n = input cursor and bytes up to limit */
 static int spec_decode_entry_ok(const uint8_t *q, uint32_t s, uint32_t ns, uint32_t vl, const uint8_t *p, size_t n) {
-  spec_hdr_t h = spec_entry_header(p, n);
-  int decodable = h.len != 0 && (uint64_t)h.non_shared + (uint64_t)h.value_length <= (uint64_t)(n - h.len);
-  if (!decodable)
-    return q == NULL;
-  return q == p + h.len && s == h.shared && ns == h.non_shared && vl == h.value_length;
+  uint8_t h[20];
+  size_t k1, k2, k3, len;
+  uint32_t es, ens, evl;
+  h[0] = SPEC_B(p, n, 0); h[1] = SPEC_B(p, n, 1); h[2] = SPEC_B(p, n, 2); h[3] = SPEC_B(p, n, 3); h[4] = SPEC_B(p, n, 4);
+  h[5] = SPEC_B(p, n, 5); h[6] = SPEC_B(p, n, 6); h[7] = SPEC_B(p, n, 7); h[8] = SPEC_B(p, n, 8); h[9] = SPEC_B(p, n, 9);
+  h[10] = SPEC_B(p, n, 10); h[11] = SPEC_B(p, n, 11); h[12] = SPEC_B(p, n, 12); h[13] = SPEC_B(p, n, 13); h[14] = SPEC_B(p, n, 14);
+  h[15] = 0x80; h[16] = 0x80; h[17] = 0x80; h[18] = 0x80; h[19] = 0x80;
+  k1 = SPEC_VLEN(h, 0);
+  if (k1 == 0) return q == NULL;
+  k2 = SPEC_VLEN(h, k1);
+  if (k2 == 0) return q == NULL;
+  k3 = SPEC_VLEN(h, k1 + k2);
+  if (k3 == 0) return q == NULL;
+  len = k1 + k2 + k3;
+  es = SPEC_VVAL(h, 0, k1); ens = SPEC_VVAL(h, k1, k2); evl = SPEC_VVAL(h, k1 + k2, k3);
+  if ((uint64_t)ens + (uint64_t)evl > (uint64_t)(n - len)) return q == NULL;
+  return q == p + len && s == es && ns == ens && vl == evl;
 }
 
 /* ============================================================== blk.decode */
@@ -49,31 +46,410 @@ __CPROVER_requires(__CPROVER_w_ok(shared, sizeof(*shared)) && __CPROVER_w_ok(non
 __CPROVER_requires(__CPROVER_same_object(xp, limit))
 __CPROVER_requires(limit < xp || __CPROVER_r_ok(xp, (size_t)(limit - xp)))
 __CPROVER_assigns(*shared, *non_shared, *value_length)
+/* for callers that replace the call: the result points into [xp, limit] (must be the first clause: it binds the pointer) */
+__CPROVER_ensures(__CPROVER_return_value == NULL || __CPROVER_pointer_in_range_dfcc(xp, __CPROVER_return_value, limit))
 /* limit before the cursor: nothing to decode */
 __CPROVER_ensures(!(limit < xp) || __CPROVER_return_value == NULL)
 /* result is NULL exactly when [xp, limit) does not start with three terminated varint32 followed by
  * non_shared + value_length bytes; otherwise it points just past the header and the outputs are the LEB128 values */
-__CPROVER_ensures(limit < xp || POST_DECODE_ENTRY(__CPROVER_return_value, *shared, *non_shared, *value_length, xp, (size_t)(limit - xp)))
+__CPROVER_ensures(limit < xp || spec_decode_entry_ok(__CPROVER_return_value, *shared, *non_shared, *value_length, xp, (size_t)(limit - xp)))
 ;
 
 void h_decode_entry(void) {
-  IN_SIZE(in_n); IN_SIZE(in_off); IN_SIZE(in_lim);
+  IN_SIZE(in_n);
   IN_BUF(buf, in_n); SNAP_BUF(buf, in_n);
   uint32_t s = 0, ns = 0, vl = 0;
   const uint8_t *q;
-  ASSUME(in_off <= in_n && in_lim <= in_n);
-  /* either the object ends exactly at limit (any read at/after limit is an
-   * out-of-bounds read), or the cursor is already past the limit */
-  ASSUME(in_lim == in_n || in_off > in_lim);
+  /* the object ends exactly at limit: any read at/after limit is an out-of-bounds read */
+  q = decode_entry(&s, &ns, &vl, buf, buf + in_n);
+  CHECK(in_n >= 3 || q == NULL, "decode_entry: fewer than 3 bytes cannot hold an entry header");
+  CHECK(q == NULL || (__CPROVER_same_object(q, buf) && (size_t)(q - buf) >= 3 && (size_t)(q - buf) <= 15 && (size_t)(q - buf) <= in_n &&
+                      (uint64_t)ns + vl <= (uint64_t)(in_n - (size_t)(q - buf))),
+        "decode_entry: header is 3..15 bytes, key delta and value lie within [result, limit)");
+  CHECK(q == NULL || in_n < 3 || !(buf[0] < 128 && buf[1] < 128 && buf[2] < 128) || (q == buf + 3 && s == buf[0] && ns == buf[1] && vl == buf[2]),
+        "decode_entry: three one-byte varints decode to themselves");
+  CANARY();
+}
+
+/* cursor already past the limit (both inside one object) */
+void h_decode_entry_past(void) {
+  IN_SIZE(in_n); IN_SIZE(in_off); IN_SIZE(in_lim);
+  IN_BUF(buf, in_n);
+  uint32_t s = 0, ns = 0, vl = 0;
+  const uint8_t *q;
+  ASSUME(in_off <= in_n && in_lim < in_off);
   q = decode_entry(&s, &ns, &vl, buf + in_off, buf + in_lim);
-  if (in_off > in_lim) {
-    CHECK(q == NULL, "decode_entry: cursor past limit yields NULL");
-  } else {
-    size_t n = in_lim - in_off;
-    CHECK(n >= 3 || q == NULL, "decode_entry: fewer than 3 bytes cannot hold an entry header");
-    CHECK(spec_decode_entry_ok(q, s, ns, vl, buf + in_off, n), "decode_entry: NULL iff undecodable, else header end and the three LEB128 values");
-    CHECK(q == NULL || (q >= buf + in_off + 3 && q <= buf + in_lim && (uint64_t)ns + vl <= (uint64_t)(buf + in_lim - q)),
-          "decode_entry: key delta and value lie within [result, limit)");
+  CHECK(q == NULL, "decode_entry: cursor past limit yields NULL");
+  CANARY();
+}
+
+/* ================================================================ blk.init */
+uint32_t c_block_restarts(const ldb_block_t *block)
+__CPROVER_requires(__CPROVER_r_ok(block, sizeof(*block)) && block->size >= 4 && __CPROVER_r_ok(block->data, block->size))
+__CPROVER_assigns()
+__CPROVER_ensures(__CPROVER_return_value == BLK_NRESTARTS(block->data, block->size))
+;
+
+void h_block_restarts(void) {
+  ldb_block_t b;
+  IN_SIZE(in_n); IN_BUF(buf, in_n); SNAP_BUF(buf, in_n);
+  uint32_t r;
+  ASSUME(in_n >= 4);
+  b.data = buf; b.size = in_n; b.restart_offset = 0; b.owned = 0;
+  r = ldb_block_restarts(&b);
+  CHECK(r == LE32_AT(buf + (in_n - 4)), "block_restarts: the count is the little-endian word in the last 4 bytes of the block");
+  CANARY();
+}
+
+static void block_init_harness(size_t in_n, int in_heap) {
+  ldb_block_t b;
+  ldb_contents_t c;
+  IN_BUF(buf, in_n);
+  c.data.data = buf; c.data.size = in_n; c.data.alloc = 0; c.cachable = 0; c.heap_allocated = in_heap;
+  b.data = NULL; b.size = 77; b.restart_offset = 77; b.owned = 77;
+  ldb_block_init(&b, &c);
+  CHECK(POST_BLOCK_INIT_FIELDS(&b, buf, in_heap), "block_init: data pointer and ownership flag are taken from the contents");
+  CHECK(POST_BLOCK_INIT_BAD(&b, buf, in_n), "block_init: size < 4 or restart count > (size-4)/4 sets the error marker size = 0");
+  CHECK(POST_BLOCK_INIT_GOOD(&b, buf, in_n), "block_init: restart_offset + 4*(1+num_restarts) == size exactly (no wrap, no truncation)");
+  CHECK(BLK_RI(&b), "block_init: block invariant holds afterwards");
+}
+
+void h_block_init(void) {
+  IN_SIZE(in_n); IN_INT(in_heap);
+  ASSUME(in_n <= 0xffffffffu);
+  block_init_harness(in_n, in_heap);
+  CANARY();
+}
+
+/* same obligations, block of ANY size_t size */
+void h_block_init_huge(void) {
+  IN_SIZE(in_n); IN_INT(in_heap);
+  block_init_harness(in_n, in_heap);
+  CANARY();
+}
+
+/* ================================================================ blk.iter
+ * Environment of the iterator units.
+ *
+ * Key buffer: its storage is abstracted.  ldb_buffer_{init,reset,resize,append,clear}
+ * are stubs over a ghost store (g_keystore) that check the buffer invariant
+ * size <= alloc before every operation and reproduce the size / capacity
+ * arithmetic of the contracts enforced on the real buffer.c in the buf.* units
+ * (growth only when needed, never shrinking).  Content of the key is not
+ * modelled (arbitrary).
+ * Comparator: a stub that checks that both operands are readable slices and
+ * returns an arbitrary int.
+ */
+uint8_t g_keystore[8];
+#define KEY_RI(z) ((z)->size <= (z)->alloc && (z)->alloc <= ((size_t)1 << 47) && \
+                   ((z)->alloc == 0 ? (z)->data == NULL : (z)->data == g_keystore))
+
+void ldb_buffer_init(ldb_buffer_t *z) { z->data = NULL; z->size = 0; z->alloc = 0; }
+void ldb_buffer_reset(ldb_buffer_t *z) { z->size = 0; }
+void ldb_buffer_clear(ldb_buffer_t *z) {
+  __CPROVER_assert(KEY_RI(z), "key buffer invariant holds when the buffer is cleared");
+  z->data = NULL; z->size = 0; z->alloc = 0;
+}
+uint8_t *ldb_buffer_resize(ldb_buffer_t *z, size_t zn) {
+  __CPROVER_assert(KEY_RI(z), "key buffer invariant holds when the buffer is resized");
+  __CPROVER_assert(zn <= ((size_t)1 << 47), "key buffer: requested size is a possible object size");
+  if (zn > z->alloc) { z->alloc = zn; z->data = g_keystore; }
+  z->size = zn;
+  return z->data;
+}
+void ldb_buffer_append(ldb_buffer_t *z, const uint8_t *xp, size_t xn) {
+  size_t zn;
+  __CPROVER_assert(KEY_RI(z), "key buffer invariant holds when bytes are appended");
+  __CPROVER_assert(xn == 0 || __CPROVER_r_ok(xp, xn), "key buffer: appended bytes are readable");
+  __CPROVER_assert(xn <= ((size_t)1 << 47), "key buffer: appended length is a possible object size");
+  zn = z->size + xn;
+  if (zn > z->alloc) {
+    size_t a = nondet_size();
+    __CPROVER_assume(a >= zn && (a == zn || a <= (z->alloc * 3) / 2));
+    z->alloc = a; z->data = g_keystore;
   }
+  z->size = zn;
+}
+
+ldb_comparator_t g_cmp;      /* the iterator's comparator */
+ldb_comparator_t g_ucmp;     /* its user comparator when it is an internal-key comparator */
+#define SLICE_READABLE(x) ((x)->size == 0 || (x)->data == g_keystore || __CPROVER_r_ok((x)->data, (x)->size))
+static int stub_compare(const ldb_comparator_t *c, const ldb_slice_t *x, const ldb_slice_t *y) {
+  __CPROVER_assert(c == &g_cmp, "comparator: called with the iterator's comparator");
+  __CPROVER_assert(SLICE_READABLE(x), "comparator: left operand is a readable slice");
+  __CPROVER_assert(SLICE_READABLE(y), "comparator: right operand is a readable slice");
+  return nondet_int();
+}
+
+/* ---- representation invariant of ldb_blockiter_t (over arbitrary block bytes) ----
+ * IT_STATIC: the block: data readable for restarts + 4*num_restarts + 4 bytes (entries, restart array, count),
+ *            at least one restart, everything below 4 GiB; comparator bound; key buffer invariant.
+ * IT_POS:    the value slice lies inside the entry area [data, data+restarts] - parse_next_key continues at its end.
+ * IT_RI:     valid (current < restarts)  => restart_index < num_restarts, IT_POS, value starts after the >= 3 header bytes;
+ *            invalid                     => current == restarts and restart_index == num_restarts.            */
+#define IT_BLOCK_BYTES(it) ((size_t)(it)->restarts + 4 * (size_t)(it)->num_restarts + 4)
+#define IT_STATIC(it) ((it)->num_restarts >= 1 && (uint64_t)(it)->restarts + 4 * (uint64_t)(it)->num_restarts + 4 <= 0xffffffffu && \
+  __CPROVER_r_ok((it)->data, IT_BLOCK_BYTES(it)) && (it)->comparator == &g_cmp && KEY_RI(&(it)->key))
+#define IT_VOFF(it) ((size_t)((it)->value.data - (it)->data))
+#define IT_POS(it) (__CPROVER_same_object((it)->value.data, (it)->data) && (it)->value.data >= (it)->data && \
+  (it)->value.size <= (size_t)(it)->restarts && IT_VOFF(it) <= (size_t)(it)->restarts - (it)->value.size)
+#define IT_NEXT_OFF(it) (IT_VOFF(it) + (it)->value.size)
+#define IT_OLD_NEXT_OFF(it) ((size_t)(__CPROVER_old((it)->value.data) - (it)->data) + __CPROVER_old((it)->value.size))
+#define IT_RI_VALID(it) (!((it)->current < (it)->restarts) || ((it)->restart_index < (it)->num_restarts && IT_POS(it) && IT_VOFF(it) >= (size_t)(it)->current + 3))
+#define IT_RI_INVALID(it) ((it)->current < (it)->restarts || ((it)->current == (it)->restarts && (it)->restart_index == (it)->num_restarts))
+#define IT_RI(it) (IT_STATIC(it) && IT_RI_VALID(it) && IT_RI_INVALID(it))
+#define IT_IS_CORRUPT(it) ((it)->current == (it)->restarts && (it)->restart_index == (it)->num_restarts && (it)->status == LDB_CORRUPTION && \
+  (it)->key.size == 0 && (it)->value.data == NULL && (it)->value.size == 0)
+/* the i-th restart point, clamped to the entry area */
+#define IT_RESTART_RAW(it, i) LE32_AT((it)->data + ((size_t)(it)->restarts + 4 * (size_t)(i)))
+#define IT_RESTART(it, i) (IT_RESTART_RAW(it, i) > (it)->restarts ? (it)->restarts : IT_RESTART_RAW(it, i))
+
+/* harness: an iterator over an ARBITRARY block (contents, entry-area size and
+ * restart count symbolic; the heap object ends exactly at the end of the
+ * trailer), key buffer of arbitrary size/capacity, any status */
+#define MK_ITER(it) \
+  ldb_blockiter_t it; \
+  IN_U32(in_restarts); IN_U32(in_num); IN_U32(in_current); IN_U32(in_ridx); IN_INT(in_status); IN_INT(in_internal); \
+  IN_SIZE(in_ksize); IN_SIZE(in_kalloc); IN_SIZE(in_voff); IN_SIZE(in_vsize); IN_INT(in_vnull); \
+  uint8_t *blk; \
+  ASSUME(in_num >= 1 && (uint64_t)in_restarts + 4 * (uint64_t)in_num + 4 <= 0xffffffffu); \
+  blk = malloc((size_t)in_restarts + 4 * (size_t)in_num + 4); ASSUME(blk != NULL); \
+  g_cmp.name = "stub"; g_cmp.compare = stub_compare; g_cmp.shortest_separator = NULL; g_cmp.short_successor = NULL; \
+  g_cmp.user_comparator = in_internal ? &g_ucmp : NULL; g_cmp.state = NULL; \
+  it.comparator = &g_cmp; it.data = blk; it.restarts = in_restarts; it.num_restarts = in_num; \
+  it.current = in_current; it.restart_index = in_ridx; it.status = in_status; \
+  ASSUME(in_ksize <= in_kalloc && in_kalloc <= ((size_t)1 << 47)); \
+  it.key.data = in_kalloc ? g_keystore : NULL; it.key.size = in_ksize; it.key.alloc = in_kalloc; \
+  ASSUME(in_voff <= (size_t)in_restarts); \
+  it.value.data = in_vnull ? NULL : blk + in_voff; it.value.size = in_vsize; it.value.alloc = 0
+
+/* ---- get_restart_point ---- */
+uint32_t c_get_restart_point(const ldb_blockiter_t *iter, uint32_t index)
+__CPROVER_requires(__CPROVER_r_ok(iter, sizeof(*iter)) && iter->num_restarts >= 1 && index < iter->num_restarts)
+__CPROVER_requires((uint64_t)iter->restarts + 4 * (uint64_t)iter->num_restarts + 4 <= 0xffffffffu && __CPROVER_r_ok(iter->data, IT_BLOCK_BYTES(iter)))
+__CPROVER_assigns()
+/* the index-th little-endian word of the restart array, clamped to the end of the entry area */
+__CPROVER_ensures(__CPROVER_return_value == IT_RESTART(iter, index))
+__CPROVER_ensures(__CPROVER_return_value <= iter->restarts)
+;
+
+void h_get_restart_point(void) {
+  MK_ITER(it); IN_U32(in_index);
+  uint32_t r;
+  ASSUME(in_index < in_num);
+  r = get_restart_point(&it, in_index);
+  CHECK(r <= in_restarts, "get_restart_point: never points past the entry area");
+  CHECK(r == (LE32_AT(blk + ((size_t)in_restarts + 4 * (size_t)in_index)) > in_restarts ? in_restarts : LE32_AT(blk + ((size_t)in_restarts + 4 * (size_t)in_index))),
+        "get_restart_point: the index-th word of the restart array, clamped");
+  CANARY();
+}
+
+/* ---- seek_to_restart_point ---- */
+void c_seek_to_restart_point(ldb_blockiter_t *iter, uint32_t index)
+__CPROVER_requires(__CPROVER_rw_ok(iter, sizeof(*iter)) && IT_STATIC(iter) && index < iter->num_restarts)
+__CPROVER_assigns(iter->key.size, iter->restart_index, iter->value.data, iter->value.size, iter->value.alloc)
+__CPROVER_ensures(__CPROVER_pointer_in_range_dfcc(iter->data, iter->value.data, iter->data + iter->restarts))
+__CPROVER_ensures(iter->key.size == 0 && iter->restart_index == index)
+__CPROVER_ensures(iter->value.data == iter->data + IT_RESTART(iter, index) && iter->value.size == 0 && iter->value.alloc == 0)
+;
+
+void h_seek_to_restart_point(void) {
+  MK_ITER(it); IN_U32(in_index);
+  ASSUME(in_index < in_num);
+  seek_to_restart_point(&it, in_index);
+  CHECK(IT_STATIC(&it) && IT_POS(&it), "seek_to_restart_point: iterator is positioned inside the entry area for parse_next_key");
+  CHECK(it.current == in_current && it.status == in_status, "seek_to_restart_point: current and status untouched");
+  CANARY();
+}
+
+/* ---- ldb_blockiter_corruption ---- */
+void c_blockiter_corruption(ldb_blockiter_t *iter)
+__CPROVER_requires(__CPROVER_rw_ok(iter, sizeof(*iter)))
+__CPROVER_assigns(iter->current, iter->restart_index, iter->status, iter->key.size, iter->value.data, iter->value.size, iter->value.alloc)
+__CPROVER_ensures(IT_IS_CORRUPT(iter) && iter->value.alloc == 0)
+;
+
+void h_blockiter_corruption(void) {
+  MK_ITER(it);
+  ldb_blockiter_corruption(&it);
+  CHECK(!ldb_blockiter_valid(&it) && ldb_blockiter_status(&it) == LDB_CORRUPTION, "corruption: iterator invalid with status LDB_CORRUPTION");
+  CHECK(IT_RI(&it), "corruption: representation invariant holds");
+  CANARY();
+}
+
+/* ---- parse_next_key ----
+ * spec of one step, written against the table format: p = first byte of the
+ * next entry, n = bytes left in the entry area (> 0), old_ksz = size of the
+ * previous key; voff = new value offset relative to p */
+static int spec_parse_next_ok(int ret, size_t old_ksz, size_t new_ksz, size_t voff, size_t vsz, const uint8_t *p, size_t n, int internal) {
+  uint8_t h[20];
+  size_t k1, k2, k3, len;
+  uint32_t es, ens, evl;
+  h[0] = SPEC_B(p, n, 0); h[1] = SPEC_B(p, n, 1); h[2] = SPEC_B(p, n, 2); h[3] = SPEC_B(p, n, 3); h[4] = SPEC_B(p, n, 4);
+  h[5] = SPEC_B(p, n, 5); h[6] = SPEC_B(p, n, 6); h[7] = SPEC_B(p, n, 7); h[8] = SPEC_B(p, n, 8); h[9] = SPEC_B(p, n, 9);
+  h[10] = SPEC_B(p, n, 10); h[11] = SPEC_B(p, n, 11); h[12] = SPEC_B(p, n, 12); h[13] = SPEC_B(p, n, 13); h[14] = SPEC_B(p, n, 14);
+  h[15] = 0x80; h[16] = 0x80; h[17] = 0x80; h[18] = 0x80; h[19] = 0x80;
+  k1 = SPEC_VLEN(h, 0);
+  if (k1 == 0) return ret == 0;
+  k2 = SPEC_VLEN(h, k1);
+  if (k2 == 0) return ret == 0;
+  k3 = SPEC_VLEN(h, k1 + k2);
+  if (k3 == 0) return ret == 0;
+  len = k1 + k2 + k3;
+  es = SPEC_VVAL(h, 0, k1); ens = SPEC_VVAL(h, k1, k2); evl = SPEC_VVAL(h, k1 + k2, k3);
+  if ((uint64_t)ens + (uint64_t)evl > (uint64_t)(n - len)) return ret == 0;  /* entry does not fit the block */
+  if ((size_t)es > old_ksz) return ret == 0;                                 /* shares more than the previous key has */
+  if (internal && (uint64_t)es + (uint64_t)ens < 8) return ret == 0;         /* an internal key has an 8-byte trailer */
+  return ret == 1 && new_ksz == (size_t)es + (size_t)ens && voff == len + (size_t)ens && vsz == (size_t)evl;
+}
+
+int c_parse_next_key(ldb_blockiter_t *iter)
+__CPROVER_requires(__CPROVER_rw_ok(iter, sizeof(*iter)) && IT_STATIC(iter) && IT_POS(iter) && iter->restart_index < iter->num_restarts)
+__CPROVER_assigns(iter->current, iter->restart_index, iter->status, iter->key.data, iter->key.size, iter->key.alloc,
+                  iter->value.data, iter->value.size, iter->value.alloc)
+__CPROVER_ensures(__CPROVER_return_value == 0 || __CPROVER_pointer_in_range_dfcc(iter->data, iter->value.data, iter->data + iter->restarts))
+__CPROVER_ensures(__CPROVER_return_value == 0 || __CPROVER_return_value == 1)
+/* "returns 1 iff now valid", and the representation invariant */
+__CPROVER_ensures((__CPROVER_return_value == 1) == (iter->current < iter->restarts))
+__CPROVER_ensures(IT_RI(iter))
+/* end of the entry area: invalid, nothing else changes */
+__CPROVER_ensures(!(IT_OLD_NEXT_OFF(iter) >= (size_t)iter->restarts) ||
+  (__CPROVER_return_value == 0 && iter->status == __CPROVER_old(iter->status) && iter->key.size == __CPROVER_old(iter->key.size) &&
+   iter->value.data == __CPROVER_old(iter->value.data) && iter->value.size == __CPROVER_old(iter->value.size)))
+/* otherwise the entry starting where the previous one ended is decoded per the format or rejected as corrupt */
+__CPROVER_ensures(IT_OLD_NEXT_OFF(iter) >= (size_t)iter->restarts ||
+  spec_parse_next_ok(__CPROVER_return_value, __CPROVER_old(iter->key.size), iter->key.size,
+                     __CPROVER_return_value ? (IT_VOFF(iter) - IT_OLD_NEXT_OFF(iter)) : 0, iter->value.size,
+                     iter->data + IT_OLD_NEXT_OFF(iter), (size_t)iter->restarts - IT_OLD_NEXT_OFF(iter),
+                     iter->comparator->user_comparator != NULL))
+__CPROVER_ensures(IT_OLD_NEXT_OFF(iter) >= (size_t)iter->restarts || __CPROVER_return_value == 1 || IT_IS_CORRUPT(iter))
+__CPROVER_ensures(__CPROVER_return_value == 0 || (iter->current == IT_OLD_NEXT_OFF(iter) && iter->status == __CPROVER_old(iter->status) &&
+  iter->restart_index >= __CPROVER_old(iter->restart_index)))
+;
+
+void h_parse_next_key(void) {
+  MK_ITER(it);
+  int r;
+  ASSUME(!in_vnull && in_vsize <= in_restarts && in_voff <= (size_t)in_restarts - in_vsize);
+  ASSUME(in_ridx < in_num);
+  r = parse_next_key(&it);
+  CHECK(r == ldb_blockiter_valid(&it), "parse_next_key: returns 1 iff the iterator is valid afterwards");
+  CHECK(!r || (size_t)it.current == in_voff + in_vsize, "parse_next_key: the new entry starts where the previous one ended");
+  CHECK(!r || IT_NEXT_OFF(&it) > (size_t)it.current, "parse_next_key: progress - the next entry offset strictly increases");
+  CANARY();
+}
+
+/* ---- trivial observers ---- */
+int c_blockiter_valid(const ldb_blockiter_t *iter)
+__CPROVER_requires(__CPROVER_r_ok(iter, sizeof(*iter)))
+__CPROVER_assigns()
+__CPROVER_ensures(__CPROVER_return_value == (iter->current < iter->restarts ? 1 : 0))
+;
+void h_blockiter_valid(void) { MK_ITER(it); int r = ldb_blockiter_valid(&it); CHECK(r == (in_current < in_restarts), "valid: current lies inside the entry area"); CANARY(); }
+
+int c_blockiter_status(const ldb_blockiter_t *iter)
+__CPROVER_requires(__CPROVER_r_ok(iter, sizeof(*iter)))
+__CPROVER_assigns()
+__CPROVER_ensures(__CPROVER_return_value == iter->status)
+;
+void h_blockiter_status(void) { MK_ITER(it); int r = ldb_blockiter_status(&it); CHECK(r == in_status, "status: the latched status"); CANARY(); }
+
+ldb_slice_t c_blockiter_key(const ldb_blockiter_t *iter)
+__CPROVER_requires(__CPROVER_r_ok(iter, sizeof(*iter)))
+__CPROVER_assigns()
+__CPROVER_ensures(__CPROVER_return_value.data == iter->key.data && __CPROVER_return_value.size == iter->key.size)
+;
+void h_blockiter_key(void) { MK_ITER(it); ldb_slice_t r = ldb_blockiter_key(&it); CHECK(r.data == it.key.data && r.size == in_ksize, "key: the reconstructed key buffer"); CANARY(); }
+
+ldb_slice_t c_blockiter_value(const ldb_blockiter_t *iter)
+__CPROVER_requires(__CPROVER_r_ok(iter, sizeof(*iter)))
+__CPROVER_assigns()
+__CPROVER_ensures(__CPROVER_return_value.data == iter->value.data && __CPROVER_return_value.size == iter->value.size)
+;
+void h_blockiter_value(void) { MK_ITER(it); ldb_slice_t r = ldb_blockiter_value(&it); CHECK(r.data == it.value.data && r.size == in_vsize, "value: the value slice inside the block"); CANARY(); }
+
+#define IT_ASSIGNS(iter) iter->current, iter->restart_index, iter->status, iter->key.data, iter->key.size, iter->key.alloc, \
+                         iter->value.data, iter->value.size, iter->value.alloc
+/* an iterator that ended up invalid either hit corruption (status latched, cleared) or kept its status */
+#define IT_INVALID_OUTCOME(iter) (iter->current < iter->restarts || IT_IS_CORRUPT(iter) || iter->status == __CPROVER_old(iter->status))
+
+/* ---- next: exactly one parse step from a valid position ---- */
+void c_blockiter_next(ldb_blockiter_t *iter)
+__CPROVER_requires(__CPROVER_rw_ok(iter, sizeof(*iter)) && IT_RI(iter) && iter->current < iter->restarts)
+__CPROVER_assigns(IT_ASSIGNS(iter))
+__CPROVER_ensures(iter->current >= iter->restarts || __CPROVER_pointer_in_range_dfcc(iter->data, iter->value.data, iter->data + iter->restarts))
+__CPROVER_ensures(IT_RI(iter))
+__CPROVER_ensures(IT_INVALID_OUTCOME(iter))
+__CPROVER_ensures(!(iter->current < iter->restarts) || (iter->current == IT_OLD_NEXT_OFF(iter) && iter->status == __CPROVER_old(iter->status)))
+__CPROVER_ensures(IT_OLD_NEXT_OFF(iter) >= (size_t)iter->restarts ||
+  spec_parse_next_ok(iter->current < iter->restarts, __CPROVER_old(iter->key.size), iter->key.size,
+                     iter->current < iter->restarts ? (IT_VOFF(iter) - IT_OLD_NEXT_OFF(iter)) : 0, iter->value.size,
+                     iter->data + IT_OLD_NEXT_OFF(iter), (size_t)iter->restarts - IT_OLD_NEXT_OFF(iter),
+                     iter->comparator->user_comparator != NULL))
+;
+void h_blockiter_next(void) {
+  MK_ITER(it);
+  ASSUME(IT_RI(&it) && in_current < in_restarts);
+  ldb_blockiter_next(&it);
+  CHECK(!ldb_blockiter_valid(&it) || it.current > in_current, "next: a valid result lies strictly after the previous entry");
+  CANARY();
+}
+
+/* ---- first: restart point 0, then one parse step with an empty previous key ---- */
+void c_blockiter_first(ldb_blockiter_t *iter)
+__CPROVER_requires(__CPROVER_rw_ok(iter, sizeof(*iter)) && IT_STATIC(iter))
+__CPROVER_assigns(IT_ASSIGNS(iter))
+__CPROVER_ensures(iter->current >= iter->restarts || __CPROVER_pointer_in_range_dfcc(iter->data, iter->value.data, iter->data + iter->restarts))
+__CPROVER_ensures(IT_RI(iter))
+__CPROVER_ensures(IT_INVALID_OUTCOME(iter))
+__CPROVER_ensures(!(iter->current < iter->restarts) || (iter->current == IT_RESTART(iter, 0) && iter->status == __CPROVER_old(iter->status)))
+__CPROVER_ensures(IT_RESTART(iter, 0) >= iter->restarts ||
+  spec_parse_next_ok(iter->current < iter->restarts, 0, iter->key.size,
+                     iter->current < iter->restarts ? (IT_VOFF(iter) - (size_t)IT_RESTART(iter, 0)) : 0, iter->value.size,
+                     iter->data + IT_RESTART(iter, 0), (size_t)iter->restarts - IT_RESTART(iter, 0),
+                     iter->comparator->user_comparator != NULL))
+;
+void h_blockiter_first(void) {
+  MK_ITER(it);
+  ldb_blockiter_first(&it);
+  CHECK(ldb_blockiter_valid(&it) || it.status == LDB_CORRUPTION || it.status == in_status, "first: invalid only at corruption or for an empty entry area");
+  CANARY();
+}
+
+/* ---- last: restart point num_restarts-1, then parse to the end of the entry area ---- */
+void c_blockiter_last(ldb_blockiter_t *iter)
+__CPROVER_requires(__CPROVER_rw_ok(iter, sizeof(*iter)) && IT_STATIC(iter))
+__CPROVER_assigns(IT_ASSIGNS(iter))
+__CPROVER_ensures(iter->current >= iter->restarts || __CPROVER_pointer_in_range_dfcc(iter->data, iter->value.data, iter->data + iter->restarts))
+__CPROVER_ensures(IT_RI(iter))
+__CPROVER_ensures(IT_INVALID_OUTCOME(iter))
+/* a valid result is an entry that ends exactly at the end of the entry area, at or after the last restart point */
+__CPROVER_ensures(!(iter->current < iter->restarts) || (IT_NEXT_OFF(iter) == (size_t)iter->restarts && iter->current >= IT_RESTART(iter, iter->num_restarts - 1) &&
+                  iter->status == __CPROVER_old(iter->status)))
+/* invalid without corruption only if the last restart point is the end of the entry area */
+__CPROVER_ensures(iter->current < iter->restarts || IT_IS_CORRUPT(iter) || IT_RESTART(iter, iter->num_restarts - 1) == iter->restarts)
+;
+void h_blockiter_last(void) {
+  MK_ITER(it);
+  ldb_blockiter_last(&it);
+  CHECK(!ldb_blockiter_valid(&it) || IT_NEXT_OFF(&it) == (size_t)in_restarts, "last: the entry returned ends where the restart array begins");
+  CANARY();
+}
+
+/* ---- prev ---- */
+void c_blockiter_prev(ldb_blockiter_t *iter)
+__CPROVER_requires(__CPROVER_rw_ok(iter, sizeof(*iter)) && IT_RI(iter) && iter->current < iter->restarts)
+__CPROVER_assigns(IT_ASSIGNS(iter))
+__CPROVER_ensures(iter->current >= iter->restarts || __CPROVER_pointer_in_range_dfcc(iter->data, iter->value.data, iter->data + iter->restarts))
+__CPROVER_ensures(IT_RI(iter))
+__CPROVER_ensures(IT_INVALID_OUTCOME(iter))
+/* a valid result starts at or after a restart point that lies strictly before the entry we came from */
+__CPROVER_ensures(!(iter->current < iter->restarts) || (IT_RESTART(iter, iter->restart_index) <= iter->current && iter->status == __CPROVER_old(iter->status)))
+;
+void h_blockiter_prev(void) {
+  MK_ITER(it);
+  ASSUME(IT_RI(&it) && in_current < in_restarts);
+  ldb_blockiter_prev(&it);
+  CHECK(ldb_blockiter_valid(&it) || it.status == LDB_CORRUPTION || it.status == in_status, "prev: invalid only at corruption or before the first entry");
   CANARY();
 }
